@@ -522,7 +522,8 @@ def run(ctx):
             for a in p.ancestors(c):
                 if isinstance(a, ast.Try) and any(c is x for b0 in a.body for x in ast.walk(b0)):
                     for h in a.handlers:
-                        if not any(isinstance(x, ast.Raise) for x in au.walk_stmts(h.body)) and not any(isinstance(x, ast.Return) for x in au.walk_stmts(h.body)):
+                        retry = any(isinstance(x, ast.Call) and au.method_name(x) in ("solve", "Solve") for b0 in h.body for x in ast.walk(b0))
+                        if not retry and not any(isinstance(x, (ast.Raise, ast.Return)) for x in au.walk_stmts(h.body)):
                             swallowed.append((c, h))
                 if a is optf.node:
                     break
